@@ -89,8 +89,9 @@ class Interstitial(object):
             # invertible, so just use solve for speed (omega is technically *negative* definite)
             self.bias_solver = lambda omega, b: -solve(-omega, b, assume_a='pos')
         else:
-            # pseudoinverse required:
-            self.bias_solver = lambda omega, b: np.dot(pinv(omega), b)
+            # pseudoinverse required: the null space of omega (uniform translation) only shows up as singular values at
+            # roundoff level (~1e-16 of the largest), which the default cutoff (N*eps) does not reliably remove
+            self.bias_solver = lambda omega, b: np.dot(pinv(omega, rtol=1e-13), b)
         # these pieces are needed in order to compute the elastodiffusion tensor
         self.sitegroupops = self.generateSiteGroupOps()  # list of group ops to take first rep. into whole list
         self.jumpgroupops = self.generateJumpGroupOps()  # list of group ops to take first rep. into whole list
